@@ -1,0 +1,113 @@
+//go:build verif
+
+package bf
+
+// Contracts for bf.go (doorkeeper; property C06).
+
+func sp_pow2_32(x uint32) bool { return x != 0 && x&(x-1) == 0 }
+
+// bit position probed for hash h by the i-th hash function in a filter of m bits
+func op_pos(h uint64, i uint32, m uint32) uint32 { return (uint32(h) + (i * uint32(h>>32))) & (m - 1) }
+
+func sp_bit(b bitvector, bit uint32) bool { return (b[bit/64]>>(bit%64))&1 == 1 }
+
+// well-formed filter: power-of-two size of at least 1024 bits, 64 bits per word, at least 2 probes
+func sp_wfBF(d *Bloomfilter) bool {
+	return sp_pow2_32(d.M) && d.M >= 1024 && d.M <= 1<<31 && uint64(len(d.Filter))*64 == uint64(d.M) && d.K >= 2
+}
+
+// all K probed bits of h are set
+func sp_exist(d *Bloomfilter, h uint64) bool {
+	return all(func(j uint32) bool { return imp(j < d.K, sp_bit(d.Filter, op_pos(h, j, d.M))) })
+}
+
+func spec_nextPowerOfTwo(i uint32) (n uint32) {
+	ensures("pow2", imp(i >= 1 && i <= 1<<31, sp_pow2_32(n) && n >= i))
+	ensures("zero", imp(i == 0 || i > 1<<31, n == 0))
+	return
+}
+
+func spec_newbv(size uint32) (b bitvector) {
+	ensures("len", uint64(len(b)) == (uint64(size)+63)/64 || size > 0xFFFFFFFF-63)
+	ensures("zero", all(func(i uint) bool { return b[i] == 0 }))
+	ensures("fresh", fresh(b))
+	return
+}
+
+func (b bitvector) spec_get(bit uint32) (r uint) {
+	requires("inrange", uint64(bit)/64 < uint64(len(b)))
+	ensures("def", r <= 1 && (r == 1) == sp_bit(b, bit))
+	return
+}
+
+func (b bitvector) spec_getset(bit uint32) (r uint) {
+	requires("inrange", uint64(bit)/64 < uint64(len(b)))
+	ensures("prev", r <= 1 && (r == 1) == old(sp_bit(b, bit)))
+	ensures("set", sp_bit(b, bit))
+	ensures("word", b[bit/64] == old(b[bit/64])|(uint64(1)<<(bit%64)))
+	ensures("others", all(func(i uint) bool { return imp(i != uint(bit/64), b[i] == old(b[i])) }))
+	return
+}
+
+func (d *Bloomfilter) spec_EnsureCapacity(capacity int) {
+	requires("wf_or_new", d.Capacity == 0 || sp_wfBF(d))
+	ensures("wf", imp(capacity > 0 || old(d.Capacity) > 0, sp_wfBF(d)))
+}
+
+func (d *Bloomfilter) spec_Insert(h uint64) (present bool) {
+	reveal("op_pos")
+	requires("wf", sp_wfBF(d))
+	ensures("wf", sp_wfBF(d) && d.Capacity == old(d.Capacity))
+	// bits are only ever set
+	ensures("monotone", all(func(w uint) bool { return old(d.Filter[w])&^d.Filter[w] == 0 }))
+	// after the call the key is present (a second Set of the same key is not a first sight)
+	ensures("present_after", sp_exist(d, h))
+	// "first sight" (false) is truthful: the key's bits were not all set before
+	ensures("first_sight", imp(!present, !old(sp_exist(d, h))))
+	return
+}
+
+func (d *Bloomfilter) spec_Insert_loop1(i uint32, o uint, h1, h2 uint32, h uint64) {
+	invariant("hash", h1 == uint32(h) && h2 == uint32(h>>32))
+	// proof hint: names the position term of the current iteration
+	invariant("pos", op_pos(h, i, d.M) == (h1+(i*h2))&(d.M-1))
+	invariant("shape", d.M == old(d.M) && d.K == old(d.K) && len(d.Filter) == old(len(d.Filter)) && d.Capacity == old(d.Capacity))
+	invariant("o", o <= 1 && i <= d.K)
+	invariant("monotone", all(func(w uint) bool { return old(d.Filter[w])&^d.Filter[w] == 0 }))
+	invariant("set", all(func(j uint32) bool { return imp(j < i, sp_bit(d.Filter, op_pos(h, j, d.M))) }))
+	only("set", "inv.loop1.set", "inv.loop1.pos", "inv.loop1.shape", "inv.loop1.hash", "call.bf.bitvector.getset")
+	invariant("truthful", imp(all(func(j uint32) bool { return imp(j < i, old(sp_bit(d.Filter, op_pos(h, j, d.M)))) }), o == 1))
+	decreases(int64(d.K) - int64(i))
+}
+
+func (d *Bloomfilter) spec_Exist(h uint64) (present bool) {
+	reveal("op_pos")
+	requires("wf", sp_wfBF(d))
+	ensures("def", present == sp_exist(d, h))
+	return
+}
+
+func (d *Bloomfilter) spec_Exist_loop1(i uint32, o uint, h1, h2 uint32, h uint64) {
+	invariant("hash", h1 == uint32(h) && h2 == uint32(h>>32))
+	// proof hint: names the position term of the current iteration
+	invariant("pos", op_pos(h, i, d.M) == (h1+(i*h2))&(d.M-1))
+	invariant("i", i <= d.K)
+	invariant("o", o <= 1 && (o == 1) == all(func(j uint32) bool { return imp(j < i, sp_bit(d.Filter, op_pos(h, j, d.M))) }))
+	decreases(int64(d.K) - int64(i))
+}
+
+func (d *Bloomfilter) spec_Reset() {
+	requires("wf", sp_wfBF(d))
+	ensures("wf", sp_wfBF(d) && d.Capacity == old(d.Capacity))
+	ensures("cleared", all(func(w uint) bool { return imp(w < uint(len(d.Filter)), d.Filter[w] == 0) }))
+}
+
+func (d *Bloomfilter) spec_Reset_loop1(i int) {
+	invariant("shape", d.M == old(d.M) && d.K == old(d.K) && len(d.Filter) == old(len(d.Filter)) && d.Capacity == old(d.Capacity))
+	invariant("done", all(func(w uint) bool { return imp(w < uint(i), d.Filter[w] == 0) }))
+}
+
+func spec_New(falsePositiveRate float64) (d *Bloomfilter) {
+	ensures("wf", d != nil && sp_wfBF(d))
+	return
+}
